@@ -1,5 +1,6 @@
 import YowsupVerif.Model.Coder
 import YowsupVerif.Gen.TokenDict
+import YowsupVerif.Gen.NibblesSrc
 namespace Yow.Drv
 open Yow Yow.Coder
 
@@ -46,7 +47,29 @@ def showErr : Err → String
   | .badNibble => "badNibble" | .badJid => "badJid" | .nullAttr => "nullAttr" | .streamEnd => "streamEnd"
   | .segmented => "segmented" | .inflate => "inflate" | .fuel => "fuel"
 
+def showPyRes : Py.Res → String
+  | .raised => "raised"
+  | .none => "none"
+  | .ret v => s!"ret {v}"
+
+/-- the TRANSLATION of the current source's digit packing functions (Gen/NibblesSrc.lean), evaluated: validates the translator against the real functions -/
+def nibSrcStep : List String → String
+  | [f, a] =>
+    match a.toInt? with
+    | some x =>
+      if f == "packHex" then showPyRes (Gen.NibSrc.enc_packHex x) else if f == "packNibble" then showPyRes (Gen.NibSrc.enc_packNibble x)
+      else if f == "unpackHex" then showPyRes (Gen.NibSrc.dec_unpackHex x) else if f == "unpackNibble" then showPyRes (Gen.NibSrc.dec_unpackNibble x)
+      else "bad-op"
+    | none => "bad-op"
+  | [f, a, b] =>
+    match a.toInt?, b.toInt? with
+    | some x, some y =>
+      if f == "packByte" then showPyRes (Gen.NibSrc.enc_packByte x y) else if f == "unpackByte" then showPyRes (Gen.NibSrc.dec_unpackByte x y) else "bad-op"
+    | _, _ => "bad-op"
+  | _ => "bad-op"
+
 def coderStep : List String → String
+  | "nibsrc" :: rest => nibSrcStep rest
   | "enc" :: toks =>
     match parseNode toks with
     | some (n, []) =>
